@@ -132,14 +132,21 @@ def int_shim(x=0, *a):
             raise cur()._raise(Unsupported(f"int() with base {base} on symbolic text"))
         s = x.strip()
         its = _items_of(s)
+        neg = False
         if its and in_set(its[0], (43, 45)):
-            raise cur()._raise(Unsupported("signed symbolic integer literal"))
+            neg = bool(in_set(its[0], (45,)))
+            its = its[1:]
         if not its:
             raise ValueError(f"invalid literal for int() with base {base}: ''")
         total = z3.IntVal(0)
-        for c in its:
+        prev_digit = False
+        for pos, c in enumerate(its):
             if in_set(c, (95,)):
-                raise cur()._raise(Unsupported("underscore in symbolic integer literal"))
+                # a single underscore is allowed between two digits
+                if not prev_digit or pos == len(its) - 1:
+                    raise ValueError(f"invalid literal for int() with base {base}")
+                prev_digit = False
+                continue
             if in_range(c, 48, 57 if base >= 10 else 55):
                 d = term_of(c) - 48
             elif base == 16 and in_range(c, 97, 102):
@@ -151,6 +158,9 @@ def int_shim(x=0, *a):
                     raise cur()._raise(Unsupported("non-Latin-1 digit in symbolic integer literal"))
                 raise ValueError(f"invalid literal for int() with base {base}")
             total = total * base + d
+            prev_digit = True
+        if neg:
+            total = -total
         return SInt(z3.simplify(total))
     return builtins.int(x, *a)
 
